@@ -167,12 +167,46 @@ def classes():
                 self.st2.listen_to(self.p, CUSTOM)
                 self.st2.listen_to(self.p, CUSTOM2)
                 self.et = CUSTOM
+            # a third statistic whose subscriber feeds it again from inside
+            # the notification (a door keeper that books a correction):
+            # every value it publishes still equals the query at that moment
+            self.st3 = K("k3", "same name", sim)
+            self.sub3 = Sub(self.st3, self.bad)
+            model_ = self
+
+            class Reenter(EventListener):
+                busy = False
+
+                def notify(self_, e):
+                    if self_.busy:
+                        return
+                    self_.busy = True
+                    try:
+                        model_.feed(model_.st3, 1.0)
+                    finally:
+                        self_.busy = False
+            self.st3.add_listener(StatEvents.OBSERVATION_ADDED_EVENT,
+                                  Reenter())
+            for nm in dir(StatEvents):
+                if nm.endswith("_EVENT") and "DATA" not in nm:
+                    self.st3.add_listener(getattr(StatEvents, nm), self.sub3)
             self.sub = Sub(self.st, self.bad)
             for nm in dir(StatEvents):
                 if nm.endswith("_EVENT") and "DATA" not in nm:
                     self.st.add_listener(getattr(StatEvents, nm), self.sub)
             for (t, pr, v) in self.obs:
                 sim.schedule_event_abs(self.T(t), self, "ob", pr, v=v)
+
+        def feed(self, st, v):
+            t = self.simulator.simulator_time
+            if self.kind == "counter":
+                st.register(int(v))
+            elif self.kind == "tally":
+                st.register(v)
+            elif self.kind == "wtally":
+                st.register(v - 1.0, v)
+            else:
+                st.register(t, v)
 
         def ob(self, v):
             s = coopsched.Sched.cur
@@ -186,6 +220,7 @@ def classes():
                 return            # watchdog against a runaway run loop
             try:
                 if self.via == "direct":
+                    self.feed(self.st3, v)
                     for st in (self.st, self.st2):
                         if self.kind == "counter":
                             st.register(int(v))
